@@ -697,7 +697,9 @@ static std::vector<Def> make_defs() {
                  const Q S2 = ((xx - yy) * (xx - yy) + (yy - zz) * (yy - zz) + (zz - xx) * (zz - xx)) / 2 + 3 * (xy * xy + xz * xz + yz * yz);
                  auto ab = [](Q x) { return fabsq(x); };
                  const Q Sabs = ((ab(xx) + ab(yy)) * (ab(xx) + ab(yy)) + (ab(yy) + ab(zz)) * (ab(yy) + ab(zz)) + (ab(zz) + ab(xx)) * (ab(zz) + ab(xx))) / 2 + 3 * (xy * xy + xz * xz + yz * yz);
-                 out[0] = sqrtq(S2); mag[0] = S2 > 0 ? Sabs / sqrtq(S2) : sqrtq(Sabs); }});
+                 // in the textbook (difference) form each difference is rounded once, relative to itself, and everything after it is a sum of
+                 // non-negative terms: the error is a few ulp of the RESULT, however close the normal stresses are to each other
+                 (void)Sabs; out[0] = sqrtq(S2); mag[0] = out[0]; }});
   auto traction = [](const Q* const* a, Q* out, Q* mag) {
     const Q* s = a[0]; const Q* n = a[1]; static const int m[3][3] = {{0, 1, 2}, {1, 3, 4}, {2, 4, 5}};
     for (int i = 0; i < 3; i++) { out[i] = 0; mag[i] = 0; for (int j = 0; j < 3; j++) { out[i] += s[m[i][j]] * n[j]; mag[i] += fabsq(s[m[i][j]] * n[j]); } }
@@ -853,7 +855,15 @@ int main(int argc, char** argv) {
   {
     Sub s; s.name = "c18.definitions"; s.property = "C18"; s.instances = (int)g_definst.size(); s.n_quick = 2000; s.n_thorough = 40000; s.run = c18_def;
     s.gen = [](int inst) { const DefInst& I = g_definst[(size_t)inst]; const VfRelation* R = g_rel[I.nt][(size_t)I.rel]; const int n = total_comps(R), nt = I.nt; const int w = wide_window(nt, R->nargs);
-      return rc::gen::map(gen_reals(n, nt, -w, w, kNeg), [=](const std::vector<LD>& v) { Case c; c.i = {inst}; c.r = v; size_t p = 0; for (int a = 0; a < R->nargs; a++) for (int j = 0; j < R->args[a].ncomp; j++, p++) if (R->args[a].ncomp == 1) c.r[p] = std::fabs(c.r[p]); return c; }); };
+      return rc::gen::map(rc::gen::tuple(gen_reals(n, nt, -w, w, kNeg), irange(0, 2), irange(4, 40)), [=](const std::tuple<std::vector<LD>, int, int>& t) {
+        Case c; c.i = {inst}; c.r = std::get<0>(t); size_t p = 0;
+        for (int a = 0; a < R->nargs; a++) {
+          // symmetric tensors: one third of the cases nearly isotropic (normal components equal up to 2^-j, small shear) - where expanded forms of the invariants cancel
+          if (R->args[a].ncomp == 6 && std::get<1>(t) == 0) { const LD m = c.r[p], d = std::ldexp(m, -std::get<2>(t)); c.r[p + 3] = round_to(nt, m + d * (c.r[p + 3] < 0 ? -1 : 1)); c.r[p + 5] = round_to(nt, m - d / 2);
+            c.r[p + 1] = std::ldexp(c.r[p + 1] == 0 ? m : c.r[p + 1], 0) ; c.r[p + 1] = round_to(nt, d * 0.3L); c.r[p + 2] = round_to(nt, -d * 0.2L); c.r[p + 4] = round_to(nt, d * 0.1L); }
+          for (int j = 0; j < R->args[a].ncomp; j++, p++) if (R->args[a].ncomp == 1) c.r[p] = std::fabs(c.r[p]);
+        }
+        return c; }); };
     s.instance_name = [](int inst) { const DefInst& I = g_definst[(size_t)inst]; return std::string(g_defs[(size_t)I.def].name) + "/" + ntinfo(I.nt).name; };
     s.rule = "a fixed table of textbook definitions (q = rho v^2/2 and its inverses, v^2/2, total = static + dynamic pressure in all arrangements, a = sqrt(K/rho) = sqrt(gamma p/rho) = sqrt(gamma R T), Ma, Re and Pr in every solved form, "
              "gamma = cp/cv, R = cp - cv (extensive and specific), alpha = k/(rho cp), nu = mu/rho, T = 1/f, sym(grad u), sym(grad v), alpha dT, (beta dT/3) I, von Mises, sigma.n, -p I), each looked up by name in the relation registry "
